@@ -513,6 +513,15 @@ def run_arrays(res):
                 arr = rs.as_per_substance_array(d)
                 if list(arr) != [d[s] for s in subs]:
                     bad.append(("as_per_substance_array", list(arr)))
+                # the same mapping as OrderedDict (insertion order = sorted names, not substance order), defaultdict and Counter
+                import collections
+
+                dd = collections.defaultdict(float)
+                dd.update(d)
+                for tname, dv in (("OrderedDict", collections.OrderedDict(sorted(d.items()))), ("reversed-OrderedDict", collections.OrderedDict(sorted(d.items(), reverse=True))),
+                                  ("defaultdict", dd), ("Counter", collections.Counter(d))):
+                    if list(rs.as_per_substance_array(dv)) != [d[s] for s in subs]:
+                        bad.append(("as_per_substance_array[%s]" % tname, list(rs.as_per_substance_array(dv))))
                 back = rs.as_per_substance_dict(arr)
                 if back != d or list(back) != list(subs):
                     bad.append(("as_per_substance_dict", back))
